@@ -143,6 +143,11 @@ func c1RegionCases(r *rng, thorough bool) []*c1case {
 			src := c1Wrap("", fmt.Sprintf("\tm := map[string]int{\"a\": 1}\n\tfor i := 0; i < 2; i++ {\n\t\tv, ok := m[\"zz\"]\n\t\tfmt.Println(v, ok)\n\t\tv = %d\n\t\t_ = v\n\t}\n", a))
 			add("map-ok-miss", src, "0 false\n0 false\nend\n", c1Pred{fmt.Sprintf("0 false\n%d false\nend\n", a), "ok"})
 		}
+		// named-result-alias: the call writes straight into the destination, so the named result IS the global
+		{
+			src := c1Wrap(fmt.Sprintf("var g0 int = %d\n\nfunc f1() (r0 int) {\n\tr0 = 2\n\tg0 /= 3\n\treturn\n}\n\nfunc f3() (r0 int) {\n\tr0 = 10\n\tfmt.Println(g0)\n\treturn\n}\n\n", 30+a), "\tg0 = f1()\n\tfmt.Println(g0)\n\tg0 = f3()\n\tfmt.Println(g0)\n")
+			add("named-result-alias", src, "2\n2\n10\nend\n", c1Pred{"0\n10\n10\nend\n", "ok"})
+		}
 		// paren-literal
 		{
 			src := c1Wrap("", "\tb := true\n\ts := \"hello\"\n\tfmt.Println(\"start\")\n\tif (s >= (\"q\")) || b {\n\t\tfmt.Println(\"then\")\n\t}\n")
